@@ -365,6 +365,24 @@ example : wfList [.whileS [.ifS [.brk] [.cont]]] = true ∧ Unlabelled [none, no
   refine ⟨by decide, ?_, by decide, by decide⟩
   intro o ho; simpa using ho
 
+/-- The repaired compiler leaves the parsed AST exactly as it found it (whatever labels the slots hold): no compilation
+    can change what another runtime, which shares the parsed elements, executes (history class `@clobbered`). -/
+theorem recompile_repaired_ast_unchanged (cb : Option (Lbl × Lbl)) (ss : List Stmt) (sl : Slots) (c : Nat)
+    (h : nslots ss ≤ sl.length) : (expandA false cb ss sl c).2.1 ++ (expandA false cb ss sl c).2.2 = sl :=
+  expandA_repaired_ast_unchanged cb ss sl c h
+
+/-- The code as it is only FILLS slots: a label that is set in the parsed AST is never changed by a later compilation
+    (`Keeps`), so the flows an earlier runtime compiled keep their targets — the defect hits the later runtime only. -/
+theorem recompile_as_is_labels_kept (cb : Option (Lbl × Lbl)) (ss : List Stmt) (sl : Slots) (c : Nat)
+    (h : nslots ss ≤ sl.length) : Keeps sl ((expandA true cb ss sl c).2.1 ++ (expandA true cb ss sl c).2.2) :=
+  expandA_as_is_labels_kept cb ss sl c h
+
+/-- non-vacuity: two exits, one slot already labelled (finite facts, by evaluation) -/
+example : nslots [.whileS [.ifS [.brk] [.cont]]] ≤ [some ("_while_end_", 0), none].length ∧
+    (expandA true none [.whileS [.ifS [.brk] [.cont]]] [some ("_while_end_", 0), none] 7).2.1 =
+      [some ("_while_end_", 0), some ("_while_begin_", 7)] := by
+  decide
+
 /-- Partial statement for the code AS IT IS, excluding exactly the finding's region (`exitFree false ss`: no `break` /
     `continue` under a `while`, directly or through `if`): every compilation of the same parsed flow is closed. -/
 theorem recompile_as_is_closed_partial (ss : List Stmt) (hwf : wfList ss = true) (he : exitFree false ss = true)
